@@ -76,6 +76,7 @@ def run_case(task):
         if 'ackermann' in ob: ex.ackermann = ob['ackermann']
         if 'div_as_mul' in ob: ex.div_as_mul = ob['div_as_mul']
         if 'fork_select' in ob: ex.fork_select = ob['fork_select']
+        ex.libm_inverse = ob.get('libm_inverse', False)
         ex.eager_writes = ob.get('eager_writes', False)
         if ob.get('setup'): ob['setup'](ex)
         cap = ob.get('time_cap', 280 if tier == 'quick' else 2400)
